@@ -93,7 +93,7 @@ def try_confirm(rec, job, res, rspec, sigs, fn, extracted):
         j2.cfile = os.path.join(wd, re.sub(r'[^\w]', '_', j2.jobname) + '.c')
         j2.jobname = re.sub(r'[^\w]', '_', j2.jobname)
         open(j2.cfile, 'w').write(src)
-        j2.defines = job.defines + ['NIX_WITNESS']
+        j2.defines = job.defines + ['NIX_WITNESS'] + (['FV_FN=' + fn] if rspec.get('witness_define_fn') else [])
         j2.entry = 'h_wit_' + fn
         r = D.run_job(j2)
         if not any(x['name'] == prop and x['status'] == 'FAILURE' for x in r['results']):
@@ -178,7 +178,7 @@ def oracle(rec, job, res, rspec, sigs, fn, ins, obs, wd):
     open(cfile, 'w').write(head + body + harness)
     j = D.Job(**job.__dict__)
     j.jobname = 'oracle_' + fn; j.cfile = cfile; j.entry = 'h_oracle'; j.replace = []
-    j.defines = [d for d in job.defines] + ['NIX_WITNESS', 'NIX_ORACLE']
+    j.defines = [d for d in job.defines] + ['NIX_WITNESS', 'NIX_ORACLE'] + (['FV_FN=' + fn] if rspec.get('witness_define_fn') else [])
     r = D.run_job(j)
     st = [x for x in r['results'] if x['name'] == res['name']]
     rec['oracle'] = {'status': st[0]['status'] if st else 'absent', 'cbmc': r['status']}
